@@ -63,4 +63,9 @@ Theorem c20_store_text : forall (ltext : nat -> list Z), (forall n, label_ok (lt
 Proof. exact store_text_printed. Qed.
 Theorem c20_key_spellings : forall (ltext : nat -> list Z), (forall n, label_ok (ltext n)) -> forall k sp, xform (key_text ltext k sp) = canon ltext k.
 Proof. exact xform_key_text. Qed.
+(* why compat holds: with labels of distinct texts, two keys have the same blank-free text only if they are equal or are a
+   species key and an option key of one label (which never share a section) *)
+Theorem c20_key_texts_distinct : forall (ltext : nat -> list Z), (forall n, label_ok (ltext n)) -> (forall a b, ltext a = ltext b -> a = b) ->
+  forall k1 k2, canon ltext k1 = canon ltext k2 -> k1 = k2 \/ single_clash k1 k2.
+Proof. exact canon_inj. Qed.
 Print Assumptions c20_store_text.
